@@ -9,7 +9,7 @@ Init == l = 1 /\ outstanding = {}
 Next == /\ l <= Len(Trace)
         /\ LET e == Trace[l] IN
            IF e.ev = "reset" THEN outstanding' = {}
-           ELSE IF e.a = "Event" THEN outstanding' = outstanding
+           ELSE IF e.a \in {"Event", "KeepAlive"} THEN outstanding' = outstanding
            ELSE IF e.a = "Send" THEN outstanding' = outstanding \cup {e.c}
            ELSE /\ Report("OwnResponse", e.c \in outstanding => e.ok)
                 /\ outstanding' = outstanding \ {e.c}
